@@ -8,6 +8,8 @@ use std::str::FromStr;
 #[rustfmt::skip] mod names;
 mod parse;
 mod text;
+#[cfg(resvg_verif)]
+pub mod verif;
 
 use tiny_skia_path::Transform;
 
